@@ -204,9 +204,45 @@ def judge_sweep(case):
     return ("held", None, res)
 
 
+def judge_valgrind(case):
+    """second observer for the shell side (thorough): valgrind --track-fds lists descriptors still open when
+    the shell exits, with the stack that created them; inherited ones are marked as such"""
+    import subprocess
+    sb = _sb
+    sb.reset_log()
+    sb.clean_work()
+    with open(os.path.join(sb.work, "fin"), "w") as f:
+        f.write("input\n")
+    with open(os.path.join(sb.vpdir, "out.K"), "w") as f:
+        f.write("kout\n")
+    lines = [c[0] for c in case["cmds"] if c[1] != "bg"]
+    env = sb.env()
+    p = subprocess.run(["/usr/bin/valgrind", "--track-fds=yes", "--error-exitcode=0", sb.cicada, "-c", " ; ".join(lines)],
+                       cwd=sb.work, env=env, stdin=subprocess.DEVNULL, capture_output=True, timeout=300)
+    err = p.stderr.decode("utf-8", "replace")
+    res = {"script": lines, "mode": "valgrind -c"}
+    import re as _re
+    blocks = _re.split(r"(?m)^==\d+== Open file descriptor ", err)[1:]
+    mine = [b for b in blocks if "<inherited from parent>" not in b.split("==\n")[0] and "inherited from parent" not in b[:300]]
+    # only the report of the shell process itself (forked children that fail to exec print one too)
+    summ = _re.findall(r"==(\d+)== FILE DESCRIPTORS: (\d+) open \((\d+) std\) at exit", err)
+    res["valgrind_fd_summary"] = summ[-1:] 
+    if not summ:
+        return ("inconclusive", "valgrind printed no descriptor summary", res)
+    res["open_at_exit"] = [b.split("\n")[0] for b in blocks]
+    if mine:
+        first = mine[0]
+        where = _re.search(r"by 0x[0-9A-F]+: (cicada::[\w:]+)", first)
+        res["valgrind"] = first[:600]
+        return ("violated", "C08:valgrind:descriptor-open-at-shell-exit:created-in=%s" % (where.group(1) if where else "?"), res)
+    return ("held", None, res)
+
+
 def _work(item):
     kind, case = item
     try:
+        if kind == "valgrind":
+            return judge_valgrind(case)
         if kind == "script":
             return judge_script(case)
         return judge_sweep(case)
@@ -231,6 +267,9 @@ def run(tier, seed):
     items = []
     for _ in range(4000 if thorough else 400):
         items.append(("script", gen_script(rng, 30)))
+    if thorough:
+        for _ in range(160):
+            items.append(("valgrind", gen_script(rng, 8)))
     for limit in range(4, 41):
         for shape, _ in SHAPES:
             for n in (range(1, 7) if thorough else [1, 2, 3, 6]):
@@ -239,7 +278,11 @@ def run(tier, seed):
     faults_hit = 0
     limits = set()
     for (kind, case), (verdict, sig, res) in zip(items, results):
-        if kind == "script":
+        if kind == "valgrind":
+            rep.case(json.dumps(case), True, sample={"mode": "valgrind --track-fds", "script": res.get("script", [])[:4],
+                                                    "open_at_exit": res.get("open_at_exit")})
+            rep.count("valgrind_track_fds_runs")
+        elif kind == "script":
             rep.case(json.dumps(case), len(case["cmds"]) > 1,
                      sample={"mode": res.get("mode"), "script": res.get("script", [])[:6], "n_records": res.get("n_records")})
             rep.count("scripts")
